@@ -83,3 +83,49 @@ def s_first_index(ev, state, node):
     x = coerce(ev.eval(state, node.args[1]), xs.ty[1])
     f = first_index_fn(ev.ctx, xs.ty)
     return SymVal(T.INT, f(xs.term, x.term))
+
+
+# ---------------------------------------------------------------------------------------------
+# constructor calls `Cls(args)`: modular call of the contracted __init__ on a fresh object.
+# The __init__ contract must declare mutates=['self'], returns_alias='self' (the value of the
+# constructor expression is the initialised object).
+# ---------------------------------------------------------------------------------------------
+def register_constructor(class_name, init_qualname, rec_name):
+    from .. import prims
+
+    def h(ev, state, node):
+        c = ev.ctx.registry.get(init_qualname)
+        if c is None:
+            raise Unsupported(f"constructor {class_name} without __init__ contract")
+        obj = fresh(T.TRec(rec_name), 'new_' + class_name)
+        state.assume(*wf(obj))
+        return prims.call_contract(ev, state, node, c, init_qualname, receiver=(obj, None))
+    prims.BUILTINS[class_name] = h
+
+
+# ---------------------------------------------------------------------------------------------
+# d.pop(k) on a heterogeneous dict: k must be a key of the rest (popping a fixed field would
+# change the shape of the record: obligation `hetero-key`), KeyError when absent
+# ---------------------------------------------------------------------------------------------
+def rec_pop(ev, state, node, recv, ref):
+    from ..symexec import write_ref, Ref
+    from ..values import dict_val, dict_remove
+    flds = T.RECORDS[recv.ty[1]]
+    if '__rest__' not in flds or len(node.args) != 1 or node.keywords:
+        raise Unsupported(f".pop() of record {recv.ty[1]}")
+    if ref is None:
+        raise Unsupported("pop on a temporary record")
+    rest = select(recv, ('fld', '__rest__'))
+    kv = coerce(ev.eval(state, node.args[0]), rest.ty[1])
+    for f in flds:
+        if f != '__rest__':
+            ev.ctx.oblige(state, kv.term != literal(f).term, 'hetero-key', node,
+                          f"popped key is not the fixed field {f!r}")
+    ev.ctx.oblige(state, dict_dom(rest)[kv.term], 'KeyError', node, 'popped key present')
+    out = SymVal(rest.ty[2], dict_val(rest)[kv.term])
+    write_ref(state, Ref(ref.cid, ref.path + (('fld', '__rest__'),)), dict_remove(rest, kv.term))
+    return out
+
+
+def register_rec_pop(record_name):
+    ghost.METHODS[(record_name, 'pop')] = rec_pop
